@@ -90,6 +90,27 @@ def impl(case):
         out["project1"] = common.enc_wfsa(f.project(1), R)
     except Exception as e:  # noqa
         out["T"] = {"exc": type(e).__name__, "msg": str(e)[:200]}
+    # (f + f2) @ g = f @ g + f2 @ g: a UNION as the left operand of a composition
+    if case.get("f2") is not None:
+        try:
+            f2 = common.mk_fst(case["f2"], R)
+            U = common.mk_fst(case["f"], R) + f2
+            UC, C1, C2 = U @ g, common.mk_fst(case["f"], R) @ g, f2 @ g
+            out["union_compose"] = [[safe(lambda: UC(tup(x), tup(z))), safe(lambda: C1(tup(x), tup(z)) + C2(tup(x), tup(z)))] for x, z in case["xz"][:8]]
+        except Exception as e:  # noqa
+            out["union_compose"] = {"exc": type(e).__name__, "msg": str(e)[:200]}
+    # the transpose is a NEW machine: edit it, transpose again, and the edits must be there
+    try:
+        t = common.mk_fst(case["f"], R).T
+        a0 = (common.dec_sym(case["f"]["arcs"][0][1]), common.dec_sym(case["f"]["arcs"][0][2])) if case["f"]["arcs"] else ("", "")
+        q0 = next(iter(t.states), 0)
+        t.add_arc(q0, a0, "__zz__", Rc.one)
+        t.add_F("__zz__", Rc.one)
+        et, ett = common.enc_fst(t, R), common.enc_fst(t.T, R)
+        flip = {"start": et["start"], "stop": et["stop"], "arcs": [[i, b, a, j, w] for i, a, b, j, w in et["arcs"]]}
+        out["transpose_of_edited"] = same_fst(flip, ett, R)[0]
+    except Exception as e:  # noqa
+        out["transpose_of_edited"] = {"exc": type(e).__name__, "msg": str(e)[:200]}
     out["p0_vals"] = [safe(lambda: f.project(0)(tup(x))) for x in case["xs"]]
     out["p1_vals"] = [safe(lambda: f.project(1)(tup(y))) for y in case["ys"]]
     # constructors
@@ -116,6 +137,14 @@ def make_case(rng, i, tier):
     g, sg = gen.gen_fst(rng, nstates=nb, in_syms=B, out_syms=Cc)
     if R == "Boolean":
         f, g = gen.fst_to_bool(f), gen.fst_to_bool(g)
+    f2 = None
+    if rng.random() < 0.35:
+        f2, _ = gen.gen_fst(rng, nstates=rng.choice([1, 2]), in_syms=A, out_syms=B)
+        if R == "Boolean":
+            f2 = gen.fst_to_bool(f2)
+        if R == "MaxTimes":
+            cap2 = lambda w: w if common.num(w) <= 1 else "1"  # noqa
+            f2["start"] = [[q, cap2(w)] for q, w in f2["start"]]; f2["stop"] = [[q, cap2(w)] for q, w in f2["stop"]]; f2["arcs"] = [e[:4] + [cap2(e[4])] for e in f2["arcs"]]
     if rng.random() < 0.2:
         f = {**f, "use_set_arc": True}       # built with `set_arc` where a triple occurs once (same machine)
     if rng.random() < 0.1:
@@ -136,7 +165,7 @@ def make_case(rng, i, tier):
     if rng.random() < 0.3:
         pairs.append(pairs[0])
     pq = [p for p in pairs] + [[pairs[0][0], pairs[0][0]], [[], []], [pairs[0][0], pairs[-1][1]]]
-    return {"id": i, "R": R, "f": f, "g": g, "shapes": [sf, sg], "xz": xz[:12], "xy": xy[:12], "xs": xs, "ys": ys,
+    return {"id": i, "R": R, "f": f, "f2": f2, "g": g, "shapes": [sf, sg], "xz": xz[:12], "xy": xy[:12], "xs": xs, "ys": ys,
             "pairs": pairs, "pair_queries": pq}
 
 
@@ -245,6 +274,21 @@ def run(ctx):
                         semantic.append(_viol(c, hs, "from_string", q, {"impl": v2, "expected": int(want2)}))
                     else:
                         traces += 1
+            uc = res.get("union_compose")
+            if isinstance(uc, dict):
+                semantic.append(_viol(c, hs, "union_compose", None, uc))
+            elif uc:
+                for (x, z), (lhs, rhs) in zip(c["xz"][:8], uc):
+                    evaluations += 1
+                    if isinstance(lhs, dict) or isinstance(rhs, dict):
+                        semantic.append(_viol(c, hs, "union_compose", [x, z], {"lhs": lhs, "rhs": rhs}))
+                    elif not common.close(common.num(lhs), common.num(rhs), 1e-7, 1e-10):
+                        semantic.append(_viol(c, hs, "union_compose", [x, z], {"(f+f2)@g": lhs, "f@g + f2@g": rhs}))
+                    else:
+                        traces += 1
+            te = res.get("transpose_of_edited")
+            if te is not True:
+                semantic.append(_viol(c, hs, "transpose_of_edited", None, {"what": "an arc and a final state added to f.T do not show in (f.T).T", "detail": te}))
             if hs == hashseeds[0]:
                 for name in ("compose", "T", "from_pairs"):
                     got = res.get(name)
